@@ -88,6 +88,9 @@ def run_len(L, timeout):
                 return {"verdict": "unknown", "message": f"solver returned {r} for length {L}", "paths": paths}
     except S.Unsupported as e:
         return {"verdict": "error", "message": f"Engine B does not support: {e}"}
+    except TypeError as e:
+        # the function under analysis used an operation the z3-valued duck types do not implement: inconclusive, never a verdict
+        return {"verdict": "error", "message": f"Engine B does not support: {type(e).__name__}: {e}"}
     except TimeoutError:
         return {"verdict": "unknown", "message": "timeout", "paths": paths}
     finally:
